@@ -133,13 +133,11 @@ theorem C08_promotion_applicable (o : BinOp) (tl tr : Ty) (cl cr : Conv)
 
 /-- **conversion step**: for an applicable conversion and an operand whose characters are 8-bit
 characters, the model's `convert` (`TempResultToInt` then `TempResultToFloat`, each on its own bit)
-delivers the SPEC's converted operand; the only difference is a string without integer value (empty or
-more than four characters), where the SPEC says "type error" and the C code goes on with an operand
-that holds no number (finding `string-operand-not-convertible`). -/
+delivers the SPEC's converted operand - including the type error for a string without integer value (empty or
+more than four characters; since the repair 9e997b4 - before it the C code went on with an operand that held no
+number, finding `string-operand-not-convertible`). -/
 theorem C08_convert_step (c : Conv) (v : Val) (ha : applicable c v.ty = true) (h8 : latin1 v) :
-    convert (maskOf c) v = match applyConv c v with
-      | .error _ => .error .ub
-      | .ok w => .ok w := by
+    convert (maskOf c) v = applyConv c v := by
   cases c <;> cases v <;> simp [applicable, Val.ty] at ha
   all_goals first
     | rfl
